@@ -937,6 +937,7 @@ pub fn request_hosts() -> Vec<Option<String>> {
         Some("other.net"),
         Some("www.shop.org"),
         Some("nomatch.invalid"),
+        Some("api.example.org.uk"),
         Some(""),
     ]
     .iter()
@@ -1020,6 +1021,7 @@ fn marker_pool() -> Vec<MarkerSpec> {
         MarkerSpec { name: "tld".into(), regex: "(com|net|org)".into(), transformers: vec![] },
         MarkerSpec { name: "any".into(), regex: ".+?".into(), transformers: vec![] },
         MarkerSpec { name: "up".into(), regex: "([A-Z]+?)".into(), transformers: vec![] },
+        MarkerSpec { name: "Sub2".into(), regex: "[a-z]+".into(), transformers: vec![] },
     ]
 }
 
@@ -1041,6 +1043,10 @@ pub fn host_pool() -> Vec<Option<Template>> {
         Some(Template::parse("@sub.example.@tld")),
         Some(Template::parse("www.@sub.org")),
         Some(Template::parse("@sub.Example.@tld")),
+        // a host pattern that has another pattern of the pool as a strict textual prefix
+        Some(Template::parse("@sub.example.org.uk")),
+        // a marker whose *name* has upper-case letters (names are case-sensitive whatever the host case policy)
+        Some(Template::parse("@Sub2.example.net")),
     ]
 }
 
